@@ -85,7 +85,9 @@ def has_stem(name, tail):
 def case_lookup(prog, params):
     ex = new_ex(prog)
     nl = params['nlen']; cons = []
-    name = SymStr.fresh('nm', nl, cons, exact_len=nl, alphabet=[ord(c) for c in 'abcxyz0123456789'])
+    name = SymStr.fresh('nm', nl, cons, exact_len=nl, alphabet=[ord(c) for c in (params.get('alphabet') or 'abcxyz0123456789')])
+    if params.get('alphabet'):
+        f_ = name.flat(); cons.append(f_.bs[0] != 0x2e); cons.append(f_.bs[-1] != 0x2e)      # a dot inside the name, not a dot-file or a trailing dot
     P = S('/').concat(name).concat(S('/' if params['slash'] else ''))
     target = P.concat(S(params['tail']))
     req = request('GET', target, [])
@@ -170,6 +172,8 @@ def main():
         for slash in (False, True):
             for tail in ('', '?q', '#f'):
                 cases.append(dict(ob='lookup', nlen=nl, slash=slash, tail=tail))
+    for tail in ('', '?q'):
+        cases.append(dict(ob='lookup', nlen=3, slash=False, tail=tail, alphabet='ab.'))
     chk.bounds = {'mime name lengths': [c['n'] for c in cases if c['ob'] == 'mime' and not c.get('suffix')], 'lookup targets': [c for c in cases if c['ob'] == 'lookup']}
     results = chk.run_cases(case, cases, label='C02 obligations', case_timeout=500)
     chk.extra['compared'] = sum(r.get('compared', 0) for r in results)
